@@ -67,6 +67,8 @@ type gcase struct {
 	Par  int      `json:"par"`
 	Late int      `json:"late"`
 	Priv int      `json:"priv"`
+	Ord  int      `json:"ord"` // 1 = honest peers answer the pipelined requests in reverse order
+	Lay  int      `json:"lay"` // 1 = info dictionary of one file with very many pieces
 	ID   int      `json:"id"`
 }
 
